@@ -430,9 +430,15 @@ def run(ctx):
         lh = p.map_async(long_hold_case, [(3.6, False), (1.5, True)] if ctx.tier == 'quick'
                          else [(3.6, False), (7.0, False), (1.0, False), (1.5, True), (4.0, True)])
         lh2 = p.map_async(long_hold2_case, [(1.0, 0.4)] if ctx.tier == 'quick' else [(1.0, 0.4), (2.0, 0.5), (0.5, 0.3)])
-        traces = p.map(one_case, cases, chunksize=4)
-        lht = lh.get(120)
-        lht2 = lh2.get(120)
+        # (every case bounds its own waits; the overall limit only guards against a lost pool worker)
+        limit = 1800 if ctx.tier == 'quick' else 7200
+        try:
+            traces = p.map_async(one_case, cases, chunksize=4).get(limit)
+            lht = lh.get(300)
+            lht2 = lh2.get(300)
+        except mp.TimeoutError:
+            p.terminate()
+            raise core.MachineryError('C13: the crash-point cases did not finish within %d s' % limit)
     cases = cases + [('long_hold', False, 0, 1, False)] * len(lht) + [('long_hold2', False, 0, 2, False)] * len(lht2)
     traces = traces + lht + lht2
     verdicts, st = tlc.validate_batch(COMP, TRACE, traces)
